@@ -78,7 +78,7 @@ fn system(i: u64) -> (Context, TransitionSystem, String) {
             // counterexample a few steps deep / safe system with a real frontier: long conversations
             matches!(reach.min_any_bad(), Some(d) if (2..=4).contains(&d))
         } else {
-            reach.min_any_bad().is_none() && reach.reachable >= 4 && reach.diameter >= 2
+            reach.min_any_bad().is_none() && reach.reachable >= 4 && reach.diameter >= 2 && reach.diameter <= 12
         };
         if first.is_none() {
             first = Some(tape.clone());
@@ -97,6 +97,8 @@ fn system(i: u64) -> (Context, TransitionSystem, String) {
 struct Clean {
     outcome: String,
     responses: u64,
+    /// wall-clock seconds of the clean run in this worker
+    secs: f64,
 }
 
 static CLEAN: Mutex<Option<HashMap<(u64, u64), Clean>>> = Mutex::new(None);
@@ -174,7 +176,9 @@ fn clean_run(sys_idx: u64, eng: u64) -> Result<Clean, String> {
     let log = shim::tmp_log_path(&format!("c15-{}-{}", sys_idx, eng));
     let _ = std::fs::remove_file(&log);
     let cfg = ShimCfg { seed: 0, core: "z3".into(), fault: None, log: Some(log.clone()) };
+    let started = std::time::Instant::now();
     let (outcome, err, panic) = run(sys_idx, eng, &cfg);
+    let secs = started.elapsed().as_secs_f64();
     let entries = shim::read_log(&log);
     let _ = std::fs::remove_file(&log);
     if let Some(p) = panic {
@@ -191,7 +195,7 @@ fn clean_run(sys_idx: u64, eng: u64) -> Result<Clean, String> {
         .map(|e| e.n)
         .max()
         .unwrap_or(0);
-    let c = Clean { outcome, responses };
+    let c = Clean { outcome, responses, secs };
     map.insert((sys_idx, eng), c.clone());
     Ok(c)
 }
@@ -204,10 +208,10 @@ impl Prop for C15 {
         "fault_enumeration"
     }
     fn rule(&self) -> String {
-        "fault enumeration: fixed generated systems (safe and unsafe) x engine {bmc, pdr with unsat-core generalisation, pdr without, a bare SolverContext session: declare/assert/check-sat/get-value/check-sat-assuming/get-unsat-assumptions/push/pop} ; a clean run under the reference solver's log gives the number N of response-bearing points (check-sat, check-sat-assuming, get-value, get-unsat-assumptions); then EVERY position n <= min(N, 12 quick / 80 thorough) x 11 fault kinds (error reply with a 1-character, a typical and a 4 kB message; `unknown`; empty line; unbalanced reply followed by exit; silent exit; crash with non-zero status; non-s-expression garbage; a lone `)` and `unsat)` - more closing than opening parentheses - with the solver staying alive) is injected at the n-th response. Each faulted run executes in a killable child process under a 25 s limit (clean: < 1 s). The result must be an error or an Unknown verdict - never success/failure (the fault sits on an answer the run consumed), never a panic, never a timeout; for error replies the returned error must contain the solver's message verbatim. Non-trivial: position > 1 and a kind other than silent exit; distinct by (system, engine, position, kind).".into()
+        "fault enumeration: fixed generated systems (safe and unsafe) x engine {bmc, pdr with unsat-core generalisation, pdr without, a bare SolverContext session: declare/assert/check-sat/get-value/check-sat-assuming/get-unsat-assumptions/push/pop} ; a clean run under the reference solver's log gives the number N of response-bearing points (check-sat, check-sat-assuming, get-value, get-unsat-assumptions); then EVERY position n <= min(N, 12 quick / 80 thorough) x 11 fault kinds (error reply with a 1-character, a typical and a 4 kB message; `unknown`; empty line; unbalanced reply followed by exit; silent exit; crash with non-zero status; non-s-expression garbage; a lone `)` and `unsat)` - more closing than opening parentheses - with the solver staying alive) is injected at the n-th response. Each faulted run executes in a killable child process under a 90 s limit; system/engine pairs whose clean run takes more than 6 s are excluded and counted, so the limit is >= 15 x the clean time. The result must be an error or an Unknown verdict - never success/failure (the fault sits on an answer the run consumed), never a panic, never a timeout; for error replies the returned error must contain the solver's message verbatim. Non-trivial: position > 1 and a kind other than silent exit; distinct by (system, engine, position, kind).".into()
     }
     fn assumptions(&self) -> Vec<String> {
-        vec!["a run that needs more than 25 s after a fault (clean runs take < 1 s) is counted as blocking forever".into()]
+        vec!["a run that needs more than 90 s after a fault (clean runs of the enumerated systems take < 6 s, typically < 1 s) is counted as blocking forever".into()]
     }
     fn budget(&self, _tier: Tier) -> Budget {
         Budget { cases: 0, max_tape: 16 }
@@ -219,7 +223,7 @@ impl Prop for C15 {
         true
     }
     fn case_time_limit(&self) -> u64 {
-        25
+        90
     }
     fn setup(&self, _tier: Tier) -> Result<(), String> {
         shim::install().map(|_| ())
@@ -251,6 +255,12 @@ impl Prop for C15 {
         let clean = clean_run(sys_idx, eng).map_err(|m| Failure::new("harness/c15-clean-run", format!("system {} engine {}: {}", sys_idx, eng_name, m)))?;
         if pos > clean.responses {
             rec.exclude("position beyond the last response of the clean run");
+            return Ok(());
+        }
+        // the hang oracle is a wall-clock limit on the whole case (clean run once per worker + faulted
+        // run, which ends no later than the clean one): only systems whose clean run is far below it
+        if clean.secs > 6.0 {
+            rec.exclude("clean run of this system/engine takes > 6 s (too close to the hang limit)");
             return Ok(());
         }
         rec.eval();
